@@ -81,6 +81,82 @@ def _uses_in_nested(fn: ast.AST, name: str) -> bool:
     return False
 
 
+_PURE_CALLS = {"len", "int", "str", "bytes", "bytearray", "range", "isinstance", "min", "max",
+               "sorted", "list", "tuple", "set", "dict", "bool", "abs", "repr", "float",
+               "enumerate", "zip", "sum", "any", "all", "getattr", "hasattr", "cast", "type",
+               "id", "round", "hex", "frozenset", "reversed", "iter", "chain", "startswith",
+               "endswith", "get", "keys", "values", "items", "index", "count", "join", "split",
+               "strip", "lower", "upper", "format", "hex", "is_integer", "bit_length",
+               "to_bytes", "from_bytes", "odxrequire", "issubclass", "find", "findtext",
+               "iterfind", "findall", "copy", "isidentifier", "replace", "odxstr_to_bool"}
+
+
+def _effects(node: ast.AST, exempt: Set[int] = frozenset()) -> bool:
+    """May evaluating ``node`` change the heap?  (calls outside a short list of pure ones,
+    stores to attributes / items)"""
+    for x in ast.walk(node):
+        if id(x) in exempt:
+            continue
+        if isinstance(x, ast.Call):
+            nm = x.func.attr if isinstance(x.func, ast.Attribute) else (
+                x.func.id if isinstance(x.func, ast.Name) else "")
+            if nm not in _PURE_CALLS:
+                return True
+        if isinstance(x, (ast.Attribute, ast.Subscript)) and isinstance(
+                x.ctx, (ast.Store, ast.Del)):
+            return True
+        if isinstance(x, (ast.Yield, ast.YieldFrom, ast.Await)):
+            return True
+    return False
+
+
+def _moved_across_effects(stmts: List[ast.stmt], names: Set[str]) -> bool:
+    dirty = False
+    for s2 in stmts:
+        loads = [x for x in _walk_scope(s2) if isinstance(x, ast.Name) and x.id in names and
+                 isinstance(x.ctx, ast.Load)]
+        if loads:
+            if dirty:
+                return True
+            if isinstance(s2, (ast.If, ast.While, ast.For, ast.With, ast.Try)):
+                header = [getattr(s2, a) for a in ("test", "iter") if hasattr(s2, a)]
+                header += [it.context_expr for it in getattr(s2, "items", [])]
+                in_header = {id(x) for h in header for x in ast.walk(h)}
+                body_loads = [x for x in loads if id(x) not in in_header]
+                if body_loads:
+                    parts = []
+                    for a in ("body", "orelse", "finalbody"):
+                        parts += getattr(s2, a, []) or []
+                    for h in getattr(s2, "handlers", []) or []:
+                        parts += h.body
+                    if _moved_across_effects(parts, names) or (
+                            isinstance(s2, (ast.While, ast.For)) and any(
+                                _effects(p_) for p_ in parts)):
+                        return True
+                    if any(_effects(h) for h in header):
+                        return True
+                    # effects of the body before a later load were handled recursively
+                    if any(_effects(p_) for p_ in parts):
+                        dirty = True
+                    continue
+                # loads in the header only: calls of the header that take the temporary as an
+                # argument read it before they run
+                for h in header:
+                    for c in ast.walk(h):
+                        if isinstance(c, ast.Call) and _effects(c) and not any(
+                                id(x) in {id(y) for y in ast.walk(c)} for x in loads):
+                            return True
+            else:
+                for c in ast.walk(s2):
+                    if isinstance(c, ast.Call) and _effects(
+                            ast.Expr(value=ast.Call(func=c.func, args=[], keywords=[]))) and \
+                            not any(id(x) in {id(y) for y in ast.walk(c)} for x in loads):
+                        return True
+        if _effects(s2):
+            dirty = True
+    return False
+
+
 # ------------------------------------------------------------------ new temporaries
 def inline_temporaries(fn: ast.AST, new_names: Set[str]) -> int:
     """Substitute every name of ``new_names`` that has exactly one simple definition."""
@@ -150,6 +226,13 @@ def inline_temporaries(fn: ast.AST, new_names: Set[str]) -> int:
                     if has_store:
                         stored_before = True
                 if rebound:
+                    continue
+                # a definition that reads the heap (attribute, item, call result) must not be
+                # moved across something that may change the heap: `c = s.cursor; item.decode(s);
+                # if s.cursor <= c` compares two different values
+                if any(isinstance(x, (ast.Attribute, ast.Subscript, ast.Call))
+                       for v in env.values() for x in ast.walk(v)) and \
+                        _moved_across_effects(block[i + 1:], set(env)):
                     continue
                 sub = _SubstNames(env)
                 for j in range(i + 1, len(block)):
